@@ -2,6 +2,7 @@ package drive
 
 import (
 	"crypto/tls"
+	"fmt"
 	"io"
 	"net"
 	"os"
@@ -84,7 +85,7 @@ func NewUpstream(network, dir string, cert *tls.Certificate, handler func(*UpCon
 	var err error
 	switch network {
 	case "unix":
-		path := dir + "/" + vnet.UniqueName("up") + ".sock"
+		path := fmt.Sprintf("%s/%s-%d.sock", dir, vnet.UniqueName("up"), os.Getpid())
 		_ = os.Remove(path)
 		up.L, err = net.Listen("unix", path)
 		up.Addr = "unix/" + path
@@ -125,6 +126,15 @@ func (up *Upstream) serve() {
 		go func() {
 			defer close(uc.done)
 			defer up.open.Add(-1)
+			if tc, ok := c.(*tls.Conn); ok {
+				// handshake now: a handler that half-closes before any I/O needs an established session
+				_ = tc.SetDeadline(time.Now().Add(30 * time.Second))
+				if err := tc.Handshake(); err != nil {
+					_ = c.Close()
+					return
+				}
+				_ = tc.SetDeadline(time.Time{})
+			}
 			up.Handler(uc)
 		}()
 	}
